@@ -49,18 +49,89 @@ MPS_DEFS = {
     "c05mpb": [("bbb", 16, AVT), ("bbb", 12, AVT)],
     "c05mpt": [("bbb", 10, ("video", "text")), ("bbb", 14, ("video", "audio"))],
     "c05mpy": [("syn1", 12, AV), ("bbb", 12, AVT), ("syn2", 6, AV)],
+    "c05mpl": [("lymix", 10, AVT), ("lyabr", 12, AVT), ("lytri", 8, AVT)],
+    "c05mpe": [("lyenc", 10, AVT), ("bbb", 10, AVT)],
+}
+ENC_STREAMS = {"bbb", "lyenc"}
+# Streams with varied *track layouts*, built from re-labelled fixture files (the stored
+# representation JSON is rewritten: id, file name, track id, codec string; the media bytes are the
+# fixture's).  Track ids are private to a file, so every one of these is a legal stream:
+#   (stem suffix, fixture file, track id, codecs override | None)
+LAYOUTS = {
+    # AAC and E-AC-3 packaged separately, both number their audio track 2
+    "lymix": [("v1", "bbb_v6", 1, None), ("v2", "bbb_v7", 1, None), ("a1", "bbb_a1", 2, None),
+              ("a2", "bbb_a2", 2, None), ("t1", "bbb_t1", 4, None)],
+    # two AAC files on one track, E-AC-3 and AC-3 on another, three video files
+    "lyabr": [("v1", "bbb_v6", 1, None), ("v2", "bbb_v7", 1, None), ("v3", "bbb_v6", 1, None),
+              ("a1", "bbb_a1", 2, None), ("a2", "bbb_a1", 2, None), ("a3", "bbb_a2", 3, None),
+              ("a4", "bbb_a2", 3, "ac-3"), ("t1", "bbb_t1", 4, None)],
+    # three audio tracks with three codec families and ids that are not consecutive
+    "lytri": [("v1", "bbb_v7", 1, None), ("a1", "bbb_a1", 2, None), ("a2", "bbb_a2", 5, None),
+              ("a3", "bbb_a2", 7, "ac-3"), ("t1", "bbb_t1", 9, None)],
+    # encrypted and clear versions side by side, E-AC-3 sharing the AAC track id, clear-only subtitles
+    "lyenc": [("v1", "bbb_v6", 1, None), ("v1e", "bbb_v6_enc", 1, None), ("v2e", "bbb_v7_enc", 1, None),
+              ("a1", "bbb_a1", 2, None), ("a1e", "bbb_a1_enc", 2, None), ("a2e", "bbb_a2_enc", 2, None),
+              ("t1", "bbb_t1", 4, None)],
+    # video only plus one audio file numbered like nothing else
+    "lymin": [("v1", "bbb_v7", 1, None), ("a1", "bbb_a2", 6, None)],
+}
+# layouts whose AdaptationSet ids collide on the UNMODIFIED tree (ledger C05/D25): every video set is
+# id 1 and every text file becomes its own AdaptationSet with id = track id.  Used only by the ledger
+# witnesses, never by the generators.
+LAYOUTS_OUTSIDE = {
+    "lycol": [("v1", "bbb_v6", 1, None), ("a1", "bbb_a1", 1, None), ("t1", "bbb_t1", 4, None)],
+    "lytxt": [("v1", "bbb_v6", 1, None), ("a1", "bbb_a1", 2, None), ("t1", "bbb_t1", 4, None),
+              ("t2", "bbb_t1", 4, None)],
 }
 _READY = False
 _MANIFESTS = None
+_MEDIA: dict = {}
 
 
 def get_app():
     global _READY
     app = segchecks.get_app()
     if not _READY:
+        _add_layouts(app)
         _add_mps(app)
         _READY = True
     return app
+
+
+def _add_layouts(app):
+    import atexit
+    import json
+    import shutil
+    import tempfile
+    from pathlib import Path
+    scratch = Path(tempfile.mkdtemp(prefix="c05-layouts-"))
+    atexit.register(shutil.rmtree, str(scratch), True)
+    fixtures = appboot.FIXTURES / "bbb"
+    for directory, layout in {**LAYOUTS, **LAYOUTS_OUTSIDE}.items():
+        files = []
+        for suffix, src, track_id, codecs in layout:
+            stem = f"{directory}_{suffix}"
+            js = json.loads((fixtures / f"rep-{src}.json").read_text())
+            js["id"], js["filename"], js["track_id"] = stem, f"{stem}.mp4", track_id
+            if codecs:
+                js["codecs"] = codecs
+            (scratch / f"rep-{stem}.json").write_text(json.dumps(js))
+            files.append((stem, fixtures / f"{src}.mp4"))
+        app.add_stream(directory, f"Layout {directory}", files, real_index=False,
+                       rep_cache=lambda stem: scratch / f"rep-{stem}.json")
+
+
+def media_of(stream: str) -> dict:
+    """content type -> sorted media names of a stream (read from the database)"""
+    if stream not in _MEDIA:
+        out: dict = {"video": [], "audio": [], "text": []}
+        app = get_app()
+        with app.ctx() as m:
+            st = m.Stream.get(directory=stream)
+            for mf in (m.MediaFile.search(stream=st) if st is not None else []):
+                out.setdefault(mf.content_type, []).append(mf.name)
+        _MEDIA[stream] = {k: sorted(v) for k, v in out.items()}
+    return _MEDIA[stream]
 
 
 def _add_mps(app):
@@ -145,13 +216,26 @@ def gen_options(rng, mft: dict, mode: str, stream: str, kind: str) -> list:
     if "abr" in f:
         add("abr", ["0", "1"], .3)
     if "audioCodec" in f:
-        add("acodec", ["mp4a", "ec-3", "any"], .3)
+        add("acodec", ["mp4a", "ec-3", "any", "any"], .45)
+    # track selection options with the names of real media files of the stream(s)
+    dirs = [d for d, _s, _c in MPS_DEFS[stream]] if kind == "multi" else [stream]
+    names = {"audio": [], "text": []}
+    for d in dirs:
+        for k in names:
+            names[k] += media_of(d).get(k, [])
+    if names["audio"]:
+        add("main_audio", names["audio"], .25)
+        add("ad_audio", names["audio"], .15)
+    if names["text"]:
+        add("main_text", names["text"], .2)
+        add("tlang", ["eng", "und", "deu"], .1)
+        add("tcodec", ["stpp", "wvtt", "im1t|etd1"], .1)
     if "useBaseUrls" in f:
         add("base", ["0", "1"], .5)
     if "drmSelection" in f:
         # every DRM system, combinations and locations; streams without encrypted media answer 404
         # (not a 200 response, outside the property) - bbb and the bbb periods do have them
-        has_enc = stream == "bbb" or (kind == "multi" and any(d == "bbb" for d, _s, _c in MPS_DEFS[stream]))
+        has_enc = stream in ENC_STREAMS or (kind == "multi" and any(d in ENC_STREAMS for d, _s, _c in MPS_DEFS[stream]))
         add("drm", DRM_CHOICES, .55 if has_enc else .15)
         if q and q[-1][0] == "drm" and ("playready" in q[-1][1] or q[-1][1].startswith("all")):
             add("playready__version", ["1.0", "2.0", "3.0", "4.0"], .4)
@@ -188,7 +272,7 @@ def gen_options(rng, mft: dict, mode: str, stream: str, kind: str) -> list:
     return q
 
 
-STREAMS_SINGLE = ["bbb", "bbb", "tears", "syn1", "syn2"]
+STREAMS_SINGLE = ["bbb", "bbb", "tears", "syn1", "syn2"] + sorted(LAYOUTS)
 DRM_CHOICES = ["all", "clearkey", "playready", "marlin", "playready-pro", "playready-cenc", "playready-moov",
                "clearkey-cenc", "clearkey-moov", "marlin-cenc", "all-moov", "all-cenc", "marlin,clearkey",
                "playready,marlin", "clearkey,playready-pro", "none"]
@@ -231,6 +315,10 @@ def gen_case(rng, hostile: bool = True, force: dict | None = None) -> dict:
     for s in pool:
         if rng.random() < (.55 if s in ("title", "mps_title") else .25):
             slots.append(s)
+    if "repid" in slots:
+        # a renamed media file must not be named by a selection option: the option would select it in
+        # the benign twin only, and the two documents would differ for a legitimate reason
+        case["query"] = [q for q in case["query"] if q[0] not in ("main_audio", "ad_audio", "main_text")]
     for s in slots:
         v = hostile_string(rng)
         if s in ("mps_name", "directory") or s.startswith("pid") or s == "repid":
